@@ -283,9 +283,11 @@ def design_driver(m, i, nshards, tier):
                                 m.violation("options-honoured", f"{text} with lv={levels}: labels {term.labels} vs {labels}", case=case, key="labels:" + fn)
                 # levels= that do not cover the data: refused, or - if accepted - every column is still the indicator
                 # of the level in its label (a value outside levels= is never counted as one of the listed levels)
-                for sub in (levels[:-1], levels[1:]):
+                extra = 990 if col == "k" else "zz-extra"
+                for sub in (levels[:-1], levels[1:], levels + [extra], [extra] + levels):
                     if not sub:
                         continue
+                    sub, mine = list(sub), list(sub)
                     for text in (f"C({col}, levels=lv)", f"T({col}, levels=lv)", f"C({col}, Treatment, lv)"):
                         case = {"formula": "y ~ 0 + " + text, "levels": [repr(l) for l in sub], "column": col, "option": "levels-not-covering"}
                         m.case(case, canon=[text, case["levels"], "partial"], nontrivial=True)
@@ -294,7 +296,15 @@ def design_driver(m, i, nshards, tier):
                             dmp = formulae.design_matrices("y ~ 0 + " + text, df, extra_namespace={"lv": sub})
                         except Exception:
                             m.cls("levels-not-covering:refused")
+                            if sub != mine:
+                                m.violation("options-honoured", f"0 + {text}: the caller's levels list {mine} was changed in place to {sub}",
+                                            case=case, key="levels-list-mutated")
+                                sub[:] = mine
                             continue
+                        if sub != mine:
+                            m.violation("options-honoured", f"0 + {text}: the caller's levels list {mine} was changed in place to {sub}",
+                                        case=case, key="levels-list-mutated")
+                            sub[:] = mine
                         Xp = np.asarray(dmp.common[text], dtype=float)
                         wantp = np.column_stack([(rows == l).astype(float) for l in sub])
                         if Xp.shape != wantp.shape or not np.array_equal(Xp, wantp):
